@@ -331,6 +331,32 @@ func (c *c09) Run(cs core.Case) core.Result {
 				if l > 0 {
 					r.Key("lengths|%s|%d|%s", p.Path, l, placement)
 				}
+				// An output buffer one word shorter than the input, with plenty of
+				// capacity behind it: whatever the call does (it may well refuse),
+				// nothing beyond the given buffer may change.
+				if placement == "spare-capacity" && l >= 4 {
+					for _, op := range ops {
+						regIn.FillCanary()
+						regOut.FillCanary()
+						in := regIn.Data[64 : 64+l]
+						out := regOut.Data[4096+128 : 4096+128+l-2]
+						rng.Read(in)
+						rng.Read(out)
+						subNo++
+						if !core.Sub(subNo) {
+							continue
+						}
+						core.Note("C09 mismatched lengths path=%s op=%s len(in)=%d len(out)=%d", p.Path, op.name, l, l-2)
+						refused := core.Protect(func() { op.k(gf2p16.T(0x1234), in, out) }) != nil
+						if off := regOut.CheckCanaryOutside(4096+128, l-2); off >= 0 {
+							r.Violate("oob-write|"+p.Path, "path=%s op=%s: in has %d bytes, out %d (capacity far larger); refused=%v; byte at offset %d outside the output buffer [%d,%d) was written", p.Path, op.name, l, l-2, refused, off, 4096+128, 4096+128+l-2)
+						}
+						if off := regIn.CheckCanaryOutside(64, l); off >= 0 {
+							r.Violate("oob-write|"+p.Path, "path=%s op=%s: mismatched call wrote outside the input at %d", p.Path, op.name, off)
+						}
+						r.Count("mismatched_length_calls", 1)
+					}
+				}
 			}
 		}
 		r.Sample(map[string]interface{}{"mode": "lengths", "path": p.Path, "lengths": p.Lens, "placements": []string{"trailing-guard", "leading-guard", "alias-trailing", "spare-capacity"}})
